@@ -298,6 +298,11 @@ def _fake_hpc_command(cmd, output=None, **kw):
             vc.hpc[i]["state"] = "CANCELLED"
             vc.kill_batch(i)
         vc.emit("scancel", id=i, was=was)
+        if was not in ("PENDING", "RUNNING", "SUSPENDED"):
+            # an id the controller no longer knows (finished long ago / never existed): scancel fails
+            if isinstance(output, dict):
+                output["stderr"] = f"scancel: error: Kill job error on job id {i}: Invalid job id specified\n"
+            return 1
         return 0
     raise RuntimeError("unexpected HPC command: " + cmd)
 
@@ -510,6 +515,17 @@ def install():
         cur_actor().pending_row = result
         VC.fault_point("append:" + self._filename.name)
     _wrap_method(ResultsAggregator, "append_result", before=before_append_result)
+    def before_consolidate(self, results):
+        # the copy of a node file's rows into processed_results.csv (a write that can hit the quota)
+        VC.fault_point("consolidate:processed_results.csv")
+
+    def after_consolidate(args, kw, res, exc):
+        # rows of one node file are now in the consolidated file (a later failure of the same round does not undo it)
+        if exc is None:
+            VC.emit("moved", rows=[[r.name, r.return_code, r.status.value if hasattr(r.status, "value") else str(r.status)]
+                                   for r in (args[1] if len(args) > 1 else kw.get("results", []))])
+    _wrap_method(ResultsAggregator, "_append_processed_results", before=before_consolidate, after=after_consolidate)
+
     def after_append_inner(args, kw, res, exc):
         self = args[0]
         r = getattr(cur_actor(), "pending_row", None)
@@ -614,6 +630,7 @@ class VirtualCluster:
         self.base_env = {k: v for k, v in os.environ.items() if not k.startswith("SLURM_")}
         self.actors = []
         self.cur = None
+        self.last_actor = None
         self.baton = threading.Event()
         self.trace = []
         self.choices_made = []
@@ -651,6 +668,8 @@ class VirtualCluster:
         ev = {"k": kind, "p": a.proc.pid if a else 0}
         if a is not None and a.proc.batch is not None:
             ev["node"] = a.proc.batch
+        if a is not None:
+            ev["pk"] = a.proc.kind          # kind of the emitting process: node | try | login | user | cancel | ...
         ev.update(payload)
         self.trace.append(ev)
 
@@ -859,8 +878,29 @@ class VirtualCluster:
                     return (want, None)
             self.replay = None
         s = self.strategy
+        order = self.faults.get("finish_order")
+        if order:
+            # directed schedules: a job's process does not end before the jobs listed before it have ended
+            def held(c):
+                if not c[0].startswith("finish:"):
+                    return False
+                n = c[0].split(":", 1)[1]
+                return n in order and any(m not in self.finished for m in order[:order.index(n)])
+            keep = [c for c in ch if not held(c)]
+            if keep:
+                ch = keep
         if s == "random":
             return self.rng.choice(ch)
+        if s == "fail_first":
+            # failing jobs end as early as possible, the others as late as possible: a failure then meets as
+            # many queued dependents as possible
+            fin = [c for c in ch if c[0].startswith("finish:")]
+            bad = [c for c in fin if self.rc.get(c[0].split(":", 1)[1], 0) != 0]
+            if bad and self.rng.random() < 0.9:
+                return self.rng.choice(bad)
+            other = [c for c in ch if not c[0].startswith("finish:")]
+            if other and self.rng.random() < 0.9:
+                return self.rng.choice(other)
         runs = [c for c in ch if c[0].startswith("run:")]
         env = [c for c in ch if not c[0].startswith("run:")]
         if s == "actors_first" and runs:
@@ -875,23 +915,25 @@ class VirtualCluster:
             subs = [c for c in runs if c[1].stack[0].kind != "node"]
             if subs and self.rng.random() < 0.8:
                 return self.rng.choice(subs)
-        if s == "sticky" and runs and self.cur is not None:
-            same = [c for c in runs if c[1] is self.cur]
+        if s == "sticky" and runs and self.last_actor is not None:
+            same = [c for c in runs if c[1] is self.last_actor]
             if same and self.rng.random() < 0.85:
                 return same[0]
         if s == "gap_hunter" and self.trace:
+            # a submitter round (on the login node or as a node's try-submit-jobs child) has just taken or released
+            # the lock of a node result file: let the other nodes run / their jobs end in that window
             last = self.trace[-1]
-            if last.get("k") in ("release", "acquire") and str(last.get("lock", "")).startswith("results_batch") and "node" not in last:
-                nodes = [c for c in runs if c[1].stack[0].kind == "node"] + [c for c in ch if c[0].startswith("finish:")]
+            if last.get("k") in ("release", "acquire") and str(last.get("lock", "")).startswith("results_batch") and last.get("pk") != "node":
+                nodes = [c for c in runs if c[1].stack[0].kind == "node" and c[1] is not self.last_actor] + [c for c in ch if c[0].startswith("finish:")]
                 if nodes and self.rng.random() < 0.8:
                     return self.rng.choice(nodes)
         if s == "collect_gap":
-            # between a login-side round's result collection and its next step, let the nodes run on
+            # between a round's result collection and its next step, let the nodes run on
             for ev in reversed(self.trace[-40:]):
-                if ev.get("k") in ("squeue", "marker_touch", "round_end") and "node" not in ev:
+                if ev.get("k") in ("squeue", "marker_touch", "round_end") and ev.get("pk") != "node":
                     break
-                if ev.get("k") == "collect" and "node" not in ev:
-                    nodes = [c for c in runs if c[1].stack[0].kind == "node"] + [c for c in ch if c[0].startswith("finish:")]
+                if ev.get("k") == "collect" and ev.get("pk") != "node":
+                    nodes = [c for c in runs if c[1].stack[0].kind == "node" and c[1] is not self.last_actor] + [c for c in ch if c[0].startswith("finish:")]
                     if nodes and self.rng.random() < 0.9:
                         return self.rng.choice(nodes)
                     break
@@ -1007,6 +1049,7 @@ class VirtualCluster:
         a.go.set()
         self.baton.wait()
         self.cur = None
+        self.last_actor = a
 
     # ---- entry points ----------------------------------------------------------------------------
     def config(self):
